@@ -351,18 +351,21 @@ pub fn run(input: &Value) -> Case {
             }
         }
     }
-    // all commands go through ONE encoder object into one output
+    // all commands go through ONE encoder object into one output, which may already hold a
+    // complete prefix (`pre`); the bytes after the prefix are the observation
+    let pre = vbytes(&input["pre"]);
     let out = {
         let caps2 = caps.clone();
+        let pre2 = pre.clone();
         catch(move || {
             let mut enc = TTYEncoder::new(caps2);
-            let mut out = Vec::new();
+            let mut out = pre2.clone();
             for cmd in cmds {
                 if enc.encode(&mut out, cmd).is_err() {
                     return None;
                 }
             }
-            Some(out)
+            Some(out[pre2.len()..].to_vec())
         })
         .flatten()
     };
@@ -373,7 +376,7 @@ pub fn run(input: &Value) -> Case {
         coq_depth(depth),
         cbool(caps.glyphs),
         cbool(caps.kitty_keyboard),
-        if stream.is_some() { clist(coq_cmds) } else { coq_cmds[0].clone() },
+        if stream.is_some() { format!("{} {}", cbytes(&pre), clist(coq_cmds)) } else { coq_cmds[0].clone() },
         clist(oracle),
         copt(out.as_ref().map(|b| cbytes(b)))
     );
@@ -666,7 +669,13 @@ pub fn generate(rng: &mut Rng, n: usize, tier: &str) -> Vec<Value> {
                     cmds.push(c);
                 }
             }
-            v.push(json!({"caps": rand_caps(rng), "cmds": cmds}));
+            // what preceded the stream: nothing, text, or complete control sequences of any kind
+            let prefixes: [&[u8]; 10] = [
+                b"", b"", b"hello [", b"\x1b[1;31m", b"\x1b]2;title\x07", b"\x1b[?25l\x1b[2J", b"\xc3\xa9\xe2\x82\xac ]0;",
+                b"\x1bP$qm\x1b\\", b"\x1b[38:2::1:2:3;4:3m", b"\x1b]4;1;?\x1b\\\x1b7",
+            ];
+            let pre = *rng.pick(&prefixes);
+            v.push(json!({"caps": rand_caps(rng), "pre": jbytes(pre), "cmds": cmds}));
         } else {
             v.push(json!({"caps": rand_caps(rng), "cmd": rand_cmd(rng)}));
         }
